@@ -39,7 +39,10 @@ VARIABLES cfg,       \* [empty |-> BOOLEAN, collapsed |-> BOOLEAN]
           skipped    \* thread -> time swallowed by samples that were not written
 fvars == <<cfg, made, parent, name, stack, last, now, out, skipped>>
 
-Top(q) == IF q = << >> THEN 0 ELSE q[Len(q)]
+\* the registry's current span of a thread: the most recently entered span, not counting a re-entry of a span that is already
+\* on the thread's stack (SpanStack marks such an entry as a duplicate and skips it)
+Top(q) == LET first == {i \in DOMAIN q : \A j \in 1..(i - 1) : q[j] # q[i]} IN
+          IF first = {} THEN 0 ELSE q[CHOOSE i \in first : \A k \in first : k <= i]
 RECURSIVE Chain(_, _)
 Chain(par, s) == IF s = 0 THEN << >> ELSE Append(Chain(par, par[s]), s)
 
